@@ -90,3 +90,18 @@ func (t *ART) verifDump(sb *strings.Builder, an artNode) {
 	}
 	sb.WriteByte(')')
 }
+
+// VerifSeekFirst runs the raw baseIter.seek for a non-empty lower bound and returns the first leaf the walk then
+// reaches (any leaf: with a value, flags-only or undone), or "end".
+func (t *ART) VerifSeekFirst(lo []byte) string {
+	if t.root.addr.IsNull() {
+		return "end"
+	}
+	it := &baseIter{allocator: &t.allocator}
+	it.seek(t.root, lo)
+	leaf := it.next()
+	if leaf.addr.IsNull() {
+		return "end"
+	}
+	return "L" + verifEnc(leaf.asLeaf(&t.allocator).GetKey())
+}
